@@ -21,11 +21,31 @@ ASSUMPTIONS = ["no conditioning predicate: the biased estimator is positive defi
                "the model autocorrelation is evaluated from the impulse response of 1/A(z) truncated at L samples and from the "
                "library's PSD sampled on NFFT points; L and NFFT follow the pole radius rho (rho^L, rho^NFFT <= 1e-18 whenever "
                "L <= 2^18, NFFT <= 2^16) and the tolerance carries the truncation / aliasing term 1e3 rho^(L-p-1)",
-               "lpc with the default order (N=None -> len(x)-1) is exercised for len(x) <= 31 only (orders 1..30 of the quantifier)"]
+               "lpc with the default order (N=None -> len(x)-1) is exercised for len(x) <= 31 only (orders 1..30 of the quantifier)",
+               "floating-point range: every generated record has a mean square r_0 inside [1e-285, 1e+285] (so that r_0 and the "
+               "prediction error are normal doubles); INDIVIDUAL samples may be as small as 5e-324 (lag products that underflow to "
+               "0 or to denormals are part of the case classes 'tiny:*'), single samples as large as 1e130; records whose r_0 itself "
+               "underflows / overflows (all samples below ~1e-154 or above ~1e+154) are not generated",
+               "'seq' cases: the property makes no reservation about what the process did before the call, so the in-domain call is "
+               "made AFTER one to three earlier calls of the same API family (out-of-domain / error-provoking ones inside try/except, "
+               "or a valid one on another record / on the same record object with another order); only the in-domain call is judged, the earlier calls may do whatever they do; numpy's error "
+               "state / print options, the warnings filter list and the spectrum module-level globals are snapshotted around every "
+               "API call only to name the earlier call to blame in the message, and are put back at the end of the case so that the "
+               "cases stay independent and every failing case replays from its own params"]
 RULE = ("non-zero real/complex data (noise, tones + noise, trends, integer-valued as float64 / int64 / int32 / int16 / int8 / uint8 "
         "arrays and as Python lists, complex dtype with zero imaginary part, exactly constant records, noise-free real / complex "
         "tones, alternating sign, single impulses and sparse records, N = 2) of length 2..200 (long records up to 1000) x orders "
-        "1..min(N-1, 30); non-trivial = order >= 2")
+        "1..min(N-1, 30); non-trivial = order >= 2.  Dynamic range inside a record ('tiny:*' / 'huge:*' / 'scaled:*' data classes, as "
+        "ordinary yule / lpc cases): noise, tones + noise and trends with one or a few samples of modulus 5e-324..1e-155 (lag "
+        "products underflow), mixtures of 1e-170 and 1, decaying / growing exponential trends exp(-c n) that run into the denormals, "
+        "one sample of 1e130 in unit noise, whole records scaled by 1e-140 / 1e+140.  Kind 'seq' = a SEQUENCE inside one process: "
+        "one to three earlier calls (aryule / pyule / lpc / LEVINSON / ma / CORRELATION on an all-zero record, an exactly singular "
+        "autocorrelation with and without allow_singularity, NaN / inf / overflowing samples, order >= N, order 0 / negative / "
+        "non-integer, wrong types, empty input - all inside try/except - or a valid call on another record or on the same record object with another order), then an in-domain "
+        "record (the tiny/huge classes above and the ordinary ones) on which aryule / pyule (.ar, .reflection, .psd) / lpc / ma "
+        "must return bit-for-bit what they return in a fresh state (reference taken before the earlier calls, or - 'ref: restored' - "
+        "recomputed afterwards with the pre-sequence numpy error state), aryule after the sequence is compared with the Lean model, "
+        "and every clause of the yule and lpc oracles is then evaluated on that record in the state the sequence left behind")
 
 
 def _sp():
@@ -96,9 +116,32 @@ def impl_yule(p):
     return [c(a), c([P]), c(k)]
 
 
+def _model_shift(x):
+    """records of the 'huge:*' / 'scaled:*' classes (max|x| outside [1e-60, 1e60]): the float-mode Lean model divides complex
+    numbers by the textbook formula (c^2 + d^2 in the denominator) and squares |X|^2 in lpc, so it leaves the double range
+    once r_0^2 does (amplitudes beyond ~1e+-77) although the library does not.  The model is then asked for x 2^-k (an exact
+    rescaling: the coefficients and reflection coefficients do not depend on the scale) and its noise variance / error power
+    is multiplied by 4^k before the comparison (post_yule / post_lpc).  k = 0 for every record with 1e-60 <= max|x| <= 1e60,
+    i.e. for every case class that existed before these were added."""
+    x = np.asarray(x)
+    m = float(np.max(np.abs(x))) if x.size and x.dtype.kind in "fc" else 1.0
+    return int(np.floor(np.log2(m))) if np.isfinite(m) and m > 0 and not (1e-60 <= m <= 1e60) else 0
+
+
 def model_yule(p):
     mode = "Q" if p["exact"] else "F"
-    return (mode, proto.request("aryule", mode, [p["order"], "biased"], [np.asarray(p["x"])]))
+    x = np.asarray(p["x"])
+    k = 0 if p["exact"] else _model_shift(x)
+    if k:
+        x = x * 2.0 ** -k
+    return (mode, proto.request("aryule", mode, [p["order"], "biased"], [x]))
+
+
+def post_yule(p, iv, mv):
+    k = 0 if p["exact"] else _model_shift(p["x"])
+    if k and len(mv) == 3:
+        mv = [mv[0], np.asarray(mv[1]) * 4.0 ** k, mv[2]]
+    return iv, mv
 
 
 def oracle_yule(p):
@@ -253,6 +296,9 @@ def model_lpc(p):
     from spectrum.tools import nextpow2
     x = np.asarray(p["x"], dtype=float)
     nfft = int(2 ** nextpow2(2.0 * len(x) - 1))
+    k = _model_shift(x)
+    if k:
+        x = x * 2.0 ** -k
     return ("F", proto.request("lpc", "F", [p["order"], nfft], [x]))
 
 
@@ -260,6 +306,9 @@ def post_lpc(p, iv, mv):
     """the error power is compared RELATIVELY: both sides are divided by |e_model|, so that the absolute term of the kind
     (1e-12, kept for coefficients that are zero to rounding) is negligible for e at every data amplitude"""
     try:
+        k = _model_shift(np.asarray(p["x"], dtype=float))
+        if k and len(mv) == 2:
+            mv = [mv[0], np.asarray(mv[1]) * 4.0 ** k]       # (model asked for x 2^-k: see _model_shift)
         s = abs(complex(np.asarray(mv[1]).ravel()[0]))
         if len(iv) == 2 and len(mv) == 2 and np.isfinite(s) and s > 0:
             return [iv[0], np.asarray(iv[1]) / s], [mv[0], np.asarray(mv[1]) / s]
@@ -336,19 +385,318 @@ def _tags_common(p):
     return t
 
 
+
+# ---- sequences inside one process: earlier (out-of-domain / failing / unrelated) calls, then an in-domain call -------------
+# The property is stated for every non-zero record and order p < N, with no reservation about what the process did before.
+# Process-global state an earlier call may leave behind (numpy error state, print options, warnings filters, module-level
+# caches / globals / mutable default arguments) must therefore not change the result of the in-domain call.
+
+def _blob(v):
+    if isinstance(v, np.ndarray):
+        return ("nd", str(v.dtype), v.shape, hash(v.tobytes()))
+    if isinstance(v, (list, tuple, dict, set, frozenset, str, bytes, int, float, complex, bool, type(None))):
+        try:
+            return repr(v)
+        except Exception:
+            return "unreprable"
+    return None
+
+
+# the modules on the Yule-Walker / lpc / ma paths (anchors of the property) and what they import from the package
+_WATCHED = ("spectrum.yulewalker", "spectrum.correlation", "spectrum.levinson", "spectrum.lpc", "spectrum.arma", "spectrum.linalg",
+            "spectrum.linear_prediction", "spectrum.psd", "spectrum.tools", "spectrum.toeplitz", "spectrum.window", "spectrum.errors")
+
+
+def _sp_globals():
+    """digest of the module-level data (and of the default argument values of the module-level functions, and of the mutable
+    class attributes) of the watched spectrum modules"""
+    import sys
+    import types
+    _sp()                       # (the package imports all its modules: the first snapshot is not taken before they exist)
+    out = {}
+    for name in _WATCHED:
+        m = sys.modules.get(name)
+        if m is None:
+            continue
+        for k, v in list(vars(m).items()):
+            if k.startswith("__"):
+                continue
+            if isinstance(v, types.FunctionType):
+                if v.__defaults__ or v.__kwdefaults__:
+                    out[name + "." + k + "()"] = (tuple(_blob(d) for d in (v.__defaults__ or ())), _blob(v.__kwdefaults__))
+            elif isinstance(v, type):
+                if getattr(v, "__module__", "").startswith("spectrum"):
+                    for ck, cv in list(vars(v).items()):
+                        if isinstance(cv, (list, dict, set)):
+                            out[name + "." + k + "." + ck] = _blob(cv)
+            elif not isinstance(v, types.ModuleType):
+                b = _blob(v)
+                if b is not None:
+                    out[name + "." + k] = b
+    return out
+
+
+def _state():
+    """the tripwire: process-global state that an API call has no business changing"""
+    import warnings
+    po = np.get_printoptions()
+    return {"numpy.geterr()": dict(np.geterr()),
+            "numpy.get_printoptions()": {k: repr(v) for k, v in po.items()},
+            "warnings.filters": (len(warnings.filters), repr(warnings.filters[0]) if warnings.filters else ""),
+            "spectrum globals": _sp_globals()}
+
+
+def _state_diff(s0, s1):
+    out = []
+    for k in s0:
+        if s0[k] != s1[k]:
+            if isinstance(s0[k], dict):
+                ch = sorted(kk for kk in set(s0[k]) | set(s1[k]) if s0[k].get(kk) != s1[k].get(kk))
+                out.append("%s: %s" % (k, ", ".join("%s %s -> %s" % (kk, str(s0[k].get(kk))[:40], str(s1[k].get(kk))[:40]) for kk in ch[:4])))
+            else:
+                out.append("%s: %s -> %s" % (k, str(s0[k])[:60], str(s1[k])[:60]))
+    return "; ".join(out)
+
+
+class _Guard:
+    """puts the process-global state back at the end of a 'seq' case (cases stay independent; replays are self-contained)"""
+
+    def __enter__(self):
+        import warnings
+        self.err = np.geterr()
+        self.po = np.get_printoptions()
+        self.filters = list(warnings.filters)
+        return self
+
+    def __exit__(self, *exc):
+        import warnings
+        np.seterr(**self.err)
+        try:
+            np.set_printoptions(**self.po)
+        except Exception:
+            pass
+        if list(warnings.filters) != self.filters:
+            warnings.filters[:] = self.filters
+            getattr(warnings, "_filters_mutated", lambda: None)()
+        return False
+
+
+def _desc_str(d):
+    def one(a):
+        if isinstance(a, np.ndarray):
+            return "<%s[%d]>" % (a.dtype, a.size)
+        if isinstance(a, list) and len(a) > 6:
+            return "<list[%d]>" % len(a)
+        return repr(a)
+    args = [one(a) for a in d.get("args", [])] + ["%s=%s" % (k, one(v)) for k, v in sorted(d.get("kw", {}).items())]
+    return "%s(%s) [%s]" % (d["fn"], ", ".join(args), d.get("note", ""))
+
+
+def _provoke(d, x=None):
+    """one earlier call, inside try/except; returns 'returned' or 'raised <type>'.  Array arguments are copied first (lpc
+    resizes its argument in place when order >= N), so that the case parameters are not touched.  The argument "@x" stands
+    for the case's own in-domain record (the same object that the in-domain call receives afterwards)."""
+    sp = _sp()
+    args = [a.copy() if isinstance(a, np.ndarray) else (list(a) if isinstance(a, list) else a) for a in d.get("args", [])]
+    args = [x if isinstance(a, str) and a == "@x" else a for a in args]
+    kw = dict(d.get("kw", {}))
+    fn = d["fn"]
+    try:
+        if fn == "pyule":
+            q = sp.pyule(*args, **kw)
+            q()
+            q.psd
+        elif fn == "pyule.psd":
+            sp.pyule(*args, **kw).psd
+        elif fn in ("aryule", "lpc", "LEVINSON", "ma", "CORRELATION"):
+            getattr(sp, fn)(*args, **kw)
+        else:
+            return "harness: unknown earlier call %r" % fn
+    except Exception as e:       # noqa: BLE001 - whatever the earlier call does is ignored; only the in-domain call is judged
+        return "raised %s" % type(e).__name__
+    return "returned"
+
+
+def _ma_orders(order):
+    return max(1, order // 2), order       # ma(X, Q, M): 0 < Q < M, long AR order M = the case's order
+
+
+def _api_calls(p):
+    """the observation points of the property on the in-domain record: (name, thunk) returning a flat complex vector"""
+    sp = _sp()
+    xin, order = p["x"], p["order"]
+    real = not np.iscomplexobj(np.asarray(xin))
+
+    def f_aryule():
+        a, P, k = sp.aryule(xin, order)
+        return np.concatenate((c(a), c([P]), c(k)))
+
+    def f_pyule():
+        q = sp.pyule(xin, order, NFFT=64, scale_by_freq=False)
+        q()
+        return np.concatenate((c(q.ar), c(q.reflection), c(q.psd)))
+
+    def f_lpc():
+        a, e = sp.lpc(np.array(xin, dtype=float), order)
+        return np.concatenate((c(a), c([e])))
+
+    def f_ma():
+        b, rho = sp.ma(xin, *_ma_orders(order))
+        return np.concatenate((c(b), c([rho])))
+
+    calls = [("aryule(x, %d)" % order, f_aryule), ("pyule(x, %d, NFFT=64)().ar/.reflection/.psd" % order, f_pyule)]
+    if real:
+        calls.append(("lpc(x, %d)" % order, f_lpc))
+    if order >= 2:
+        calls.append(("ma(x, %d, %d)" % _ma_orders(order), f_ma))
+    return calls
+
+
+def _from_library(e):
+    """the exception was raised inside the spectrum package (and not by the oracle's own reference arithmetic)"""
+    import os
+    root = os.path.dirname(os.path.abspath(_sp().__file__))
+    tb = e.__traceback__
+    while tb is not None:
+        if os.path.abspath(tb.tb_frame.f_code.co_filename).startswith(root):
+            return True
+        tb = tb.tb_next
+    return False
+
+
+def _run_pre(p, log=None):
+    s = _state() if log is not None else None
+    for d in p["pre"]:
+        outcome = _provoke(d, p["x"])
+        if log is not None:
+            s1 = _state()
+            diff = _state_diff(s, s1)
+            log.append((_desc_str(d), outcome, diff))
+            s = s1
+        elif outcome.startswith("harness"):
+            raise ValueError(outcome)
+
+
+def impl_seq(p):
+    """aryule on the in-domain record AFTER the earlier calls (compared with the Lean model of aryule on that record)"""
+    with _Guard():
+        _run_pre(p)
+        return impl_yule(p)
+
+
+def oracle_seq(p):
+    xin, order = p["x"], p["order"]
+    x = np.asarray(xin)
+    what = "N=%d order=%d %s %s data %s" % (len(x), order, "complex" if np.iscomplexobj(x) else "real", _inkind(xin), p["dkind"])
+    ref_mode = p.get("ref", "before")
+    out = []
+    with _Guard() as g:
+        calls = _api_calls(p)
+        fresh = {}
+        if ref_mode == "before":
+            for nm, f in calls:
+                try:
+                    fresh[nm] = f()
+                except Exception as e:      # noqa: BLE001
+                    out.append("%s raised %s in a fresh state: %s (%s)" % (nm, type(e).__name__, str(e)[:100], what))
+        log = []
+        _run_pre(p, log)
+        for ds, outcome, _ in log:
+            if outcome.startswith("harness"):
+                return [outcome]
+        hist = "; then ".join("%s %s" % (ds, oc) for ds, oc, _ in log)
+        blame = [("%s changed %s" % (ds.split("(")[0] + " [" + ds.split(" [")[-1], diff)) for ds, _, diff in log if diff]
+        tail = " {" + " | ".join(blame)[:300] + "}" if blame else ""
+        # the in-domain calls, in the state the sequence left behind (the real sequence: this is what a replay re-runs)
+        after = {}
+        for nm, f in calls:
+            s0 = _state()
+            try:
+                after[nm] = f()
+            except Exception as e:          # noqa: BLE001
+                out.append("in-domain call %s raised %s: %s after the earlier call(s) [%s]%s (%s)" % (
+                    nm, type(e).__name__, str(e)[:100], hist, tail, what))
+            d = _state_diff(s0, _state())
+            if d and not blame:
+                blame.append("in-domain %s left %s" % (nm, d))
+        if ref_mode != "before":
+            np.seterr(**g.err)              # reference recomputed with the pre-sequence numpy error state
+            for nm, f in calls:
+                try:
+                    fresh[nm] = f()
+                except Exception as e:      # noqa: BLE001
+                    out.append("%s raised %s with the pre-sequence error state: %s (%s)" % (nm, type(e).__name__, str(e)[:100], what))
+        for nm, _ in calls:
+            if nm in fresh and nm in after:
+                u, v = fresh[nm], after[nm]
+                # the same deterministic computation on the same input object: bit-for-bit (worst difference observed on the
+                # unchanged tree over the quick and thorough tiers, seeds 0..4: exactly 0; NaN patterns must match as well)
+                if u.shape != v.shape or not np.array_equal(u, v, equal_nan=True):
+                    with np.errstate(all="ignore"):
+                        dv = rel(u, v)
+                    out.append("in-domain call %s differs from its result in a fresh state by %.2e after the earlier call(s) [%s]%s (%s)" % (
+                        nm, dv, hist, tail, what))
+        # every clause of the property on the in-domain record, in the state the sequence left behind
+        q = {"x": xin, "order": order, "exact": False, "dkind": p["dkind"]}
+        clause_oracles = [("yule", oracle_yule)] + ([] if np.iscomplexobj(x) else [("lpc", oracle_lpc)])
+        for cname, orc in clause_oracles:
+            try:
+                fails = orc(q)
+            except Exception as e:          # noqa: BLE001
+                if _from_library(e):
+                    out.append("the %s clauses could not be evaluated on the in-domain record: the library raised %s: %s after the "
+                               "earlier call(s) [%s]%s (%s)" % (cname, type(e).__name__, str(e)[:100], hist, tail, what))
+                    continue
+                # the oracle's own reference arithmetic tripped over the state left behind: evaluate the clauses with the
+                # pre-sequence numpy error state (the library calls above were already judged in the real state)
+                np.seterr(**g.err)
+                fails = orc(q)
+            for f in fails:
+                out.append("%s -- after the earlier call(s) [%s]%s" % (f, hist, tail))
+    return out
+
+
+def _key_seq(p):
+    return "seq|%s|%s|%s" % (p.get("ref", "before"), ";".join("%s:%s" % (d["fn"], d.get("note", "")) for d in p["pre"]), _key(p))
+
+
 KINDS = {
     "lpc": {"impl": impl_lpc, "model": model_lpc, "oracle": oracle_lpc, "post": post_lpc, "rtol": 1e-7, "atol": 1e-12,
             "key": lambda p: "lpc|" + p.get("call", "pos") + "|" + _key(p),
             "nontrivial": lambda p: p["order"] >= 2,
             "tags": lambda p: ["lpc", "lpc-call:" + p.get("call", "pos")] + _tags_common(p)},
-    "yule": {"impl": impl_yule, "model": model_yule, "oracle": oracle_yule, "rtol": 1e-7, "atol": 1e-300, "key": _key,
+    "yule": {"impl": impl_yule, "model": model_yule, "post": post_yule, "oracle": oracle_yule, "rtol": 1e-7, "atol": 1e-300, "key": _key,
              "nontrivial": lambda p: p["order"] >= 2,
              "tags": lambda p: ["complex" if np.iscomplexobj(p["x"]) else "real"] + _tags_common(p) + [
                                 "mode:" + ("Q" if p["exact"] else "F"), "order=N-1" if p["order"] == len(p["x"]) - 1 else "order<N-1"]},
+    # a sequence inside one process; model: the Lean aryule of the in-domain record (float mode), compared with aryule called
+    # after the earlier calls, same tolerances as 'yule'
+    "seq": {"impl": impl_seq, "model": model_yule, "post": post_yule, "oracle": oracle_seq, "rtol": 1e-7, "atol": 1e-300, "key": _key_seq,
+            "nontrivial": lambda p: p["order"] >= 2,
+            "tags": lambda p: ["seq", "seq-ref:" + p.get("ref", "before"), "seq-len:%d" % len(p["pre"])] + sorted(set(
+                "seq-pre:%s:%s" % (d["fn"], d.get("note", "")) for d in p["pre"])) + _tags_common(p)},
 }
 
 
 KINDS["single"] = single.kind("C12")
+
+
+def _guarded(f):
+    """every case starts from the process-global state the run started with: whatever a case's library calls leave behind
+    (numpy error state, print options, warnings filters) is put back when the case ends, so that a failing case is reported for
+    ITS input and replays from its own params, instead of surfacing in later, unrelated cases.  What an earlier call may leave
+    behind for a later one is the business of the 'seq' kind, inside one case."""
+    def run(p):
+        with _Guard():
+            return f(p)
+    run.__name__ = getattr(f, "__name__", "guarded")
+    return run
+
+
+for _k in KINDS.values():
+    for _f in ("oracle", "impl"):
+        if _f in _k:
+            _k[_f] = _guarded(_k[_f])
 
 
 def _dyadic(x, order):
@@ -516,3 +864,186 @@ def gen(rng, nrng, tier):
             yield ("lpc", {"x": x, "order": order, "dkind": dk, "call": ("pos", "kw")[(i // 7) % 2]})
             if order == N - 1 and order <= 30 and (i // 4) % 2 == 0:
                 yield ("lpc", {"x": x, "order": order, "dkind": dk, "call": "default"})
+    # (after everything else: the random streams of the cases above are what they were before these classes were added)
+    yield from gen_extreme(nrng, tier)
+    yield from gen_seq(nrng, tier)
+
+
+# ---- records with an extreme dynamic range inside the record (still non-zero data of the quantifier's classes) -------------
+
+TINY_CLASSES = ["tiny:one", "tiny:few", "tiny:mix", "tiny:decay", "tiny:grow", "tiny:denormal", "huge:one", "scaled:1e-140", "scaled:1e+140"]
+
+
+def _base_record(nrng, N, cplx, i):
+    """noise / tone + noise / trend of unit scale"""
+    n = np.arange(N)
+    w = i % 3
+    if w == 0:
+        x = nrng.standard_normal(N) + (1j * nrng.standard_normal(N) if cplx else 0)
+    elif w == 1:
+        f = float(nrng.uniform(0.05, 0.45))
+        x = (np.exp(2j * np.pi * f * n) if cplx else np.cos(2 * np.pi * f * n + float(nrng.uniform(0, 6)))) + 0.2 * (
+            nrng.standard_normal(N) + (1j * nrng.standard_normal(N) if cplx else 0))
+    else:
+        x = 0.125 * n - 1.0 + nrng.standard_normal(N) + (1j * nrng.standard_normal(N) if cplx else 0)
+    return np.asarray(x, dtype=complex if cplx else float)
+
+
+def _tiny_mag(nrng):
+    """a modulus between the smallest denormal and 1e-155 (its square, and its product with its neighbours' tiny values,
+    underflows)"""
+    return float(10.0 ** -float(nrng.uniform(155, 323.3)))
+
+
+def extreme_record(nrng, N, cplx, cls, i=0):
+    """(x, variant-or-None): a record of class cls; at least half of the samples (and at least two, at least one for N <= 3) keep
+    unit scale, so that r_0 is an ordinary number.  'scaled:*' records carry a variant tag: the runner does not rescale them."""
+    n = np.arange(N)
+    x = _base_record(nrng, N, cplx, i)
+    # PENDING-FINDING (float range, /tmp/finding_C12.py): a non-zero record ALL of whose samples are below ~1e-162 has lag
+    # products that are all 0 in doubles; aryule / lpc then return NaN.  Not generated: at least one sample (two for N > 3)
+    # always keeps unit scale (times the record's overall 'scaled:*' factor, |r_0| within [1e-285, 1e+285]).
+    if not np.all(np.abs(x[:2]) > 1e-3):
+        x[:2] = 1.0
+    nmax = 1 if N <= 3 else max(1, min(N // 2, N - 2))
+    ph = (lambda: complex(np.exp(2j * np.pi * nrng.uniform()))) if cplx else (lambda: float((-1) ** int(nrng.integers(0, 2))))
+    if cls == "tiny:one":
+        x[int(nrng.integers(0, N))] = (1e-200, 1e-180 - 1e-190j)[int(cplx)] if i % 2 == 0 else _tiny_mag(nrng) * ph()
+    elif cls == "tiny:few":
+        for j in nrng.choice(N, size=min(nmax, int(nrng.integers(2, 6))), replace=False):
+            x[int(j)] = _tiny_mag(nrng) * ph()
+    elif cls == "tiny:mix":
+        idx = nrng.choice(np.arange(1, N), size=min(nmax, max(1, N // 2 - 1)), replace=False)
+        x[idx] = x[idx] * 1e-170
+    elif cls in ("tiny:decay", "tiny:grow"):
+        # exponential trend running into (and possibly through) the denormals: exp(-c n), c (N-1) between 360 and 760
+        cc = max(0.5, float(nrng.uniform(360.0, 760.0)) / max(N - 1, 1)) if i % 3 else 2.0
+        amp = float(nrng.integers(1, 64)) / 8
+        x = amp * np.exp((-cc + (1j * float(nrng.uniform(-3, 3)) if cplx else 0)) * n)
+        if cls == "tiny:grow":
+            x = x[::-1].copy()
+    elif cls == "tiny:denormal":
+        idx = nrng.choice(np.arange(0, N), size=nmax, replace=False)
+        x[idx] = 5e-324 * nrng.integers(1, 9, len(idx)) * np.array([ph() for _ in idx])
+    elif cls == "huge:one":
+        x[int(nrng.integers(0, N))] = 1e130 * ph()
+    elif cls == "scaled:1e-140":
+        return x * 1e-140, "amp:1e-140"
+    elif cls == "scaled:1e+140":
+        return x * 1e140, "amp:1e+140"
+    else:
+        raise ValueError(cls)
+    if cplx and i % 5 == 4:
+        x = 1j * x if i % 2 else x.real.astype(complex)     # purely imaginary / zero imaginary part
+    return np.asarray(x, dtype=complex if cplx else float), None
+
+
+def gen_extreme(nrng, tier):
+    """the tiny / huge classes as ordinary cases (no earlier call)"""
+    reps = 3 if tier == "quick" else 8
+    i = 0
+    for r in range(reps):
+        for cls in TINY_CLASSES:
+            for cplx in (False, True):
+                i += 1
+                N = (3, 4, 200)[r] if r < 3 and cplx == bool(r % 2) else int(nrng.integers(3, 201) if i % 3 else nrng.integers(3, 24))
+                omax = min(N - 1, 30)
+                order = (omax, 1, int(nrng.integers(1, omax + 1)))[i % 3]
+                x, variant = extreme_record(nrng, N, cplx, cls, i)
+                for kind, q in _both(x, order, cls, calls=("pos", "kw")[i % 2:i % 2 + 1]):
+                    if variant:
+                        q["variant"] = variant
+                    yield (kind, q)
+
+
+# ---- earlier calls -------------------------------------------------------------------------------------------------------------
+
+def pre_catalogue(nrng):
+    """descriptors {fn, args, kw, note} of calls that are outside the property (or fail), plus valid calls on other records"""
+    z16 = np.zeros(16)
+    zc = np.zeros(12, dtype=complex)
+    v = np.round(nrng.standard_normal(24) * 8) / 8
+    v[0] = 1.0
+    vc = v[:16] + 1j * np.round(nrng.standard_normal(16) * 8) / 8
+    vn = v.copy()
+    vn[5] = np.nan
+    vi = v.copy()
+    vi[7] = np.inf
+    vcn = vc.copy()
+    vcn[3] = complex(np.nan, 1.0)
+    D = lambda fn, note, *args, **kw: {"fn": fn, "note": note, "args": list(args), "kw": kw}   # noqa: E731
+    return [
+        # all-zero records (outside the property: 'non-zero data')
+        D("aryule", "all-zero", z16, 3), D("aryule", "all-zero-complex", zc, 2), D("aryule", "all-zero-int", np.zeros(9, dtype=int), 4),
+        D("aryule", "all-zero-list", [0.0] * 8, 2), D("aryule", "all-zero-unbiased", z16, 3, norm="unbiased"),
+        D("aryule", "all-zero-no-singularity", z16, 3, allow_singularity=False),
+        D("pyule", "all-zero", z16, 3), D("pyule.psd", "all-zero", zc, 2, NFFT=32), D("lpc", "all-zero", z16, 3),
+        D("ma", "all-zero", np.zeros(20), 2, 6), D("CORRELATION", "all-zero-coeff", z16, maxlags=3, norm="coeff"),
+        # exactly singular autocorrelation
+        D("LEVINSON", "singular-allowed", [1.0, 1.0, 1.0], allow_singularity=True),
+        D("LEVINSON", "singular-allowed-array", np.array([2.0, -2.0, 2.0, -2.0]), allow_singularity=True),
+        D("LEVINSON", "singular-allowed-complex", np.array([1.0, 1j, -1.0]), allow_singularity=True),
+        D("LEVINSON", "singular-refused", [1.0, 1.0, 1.0]), D("LEVINSON", "indefinite-refused", [1.0, 2.0, 3.0]),
+        D("LEVINSON", "indefinite-allowed", [1.0, 2.0, 3.0, 4.0], allow_singularity=True),
+        D("LEVINSON", "zero-r", np.zeros(4), allow_singularity=True), D("LEVINSON", "zero-r0", [0.0, 1.0, 0.5], allow_singularity=True),
+        D("LEVINSON", "order>len", [3.0, 1.0, 0.5], 5), D("LEVINSON", "nan-r", [1.0, float("nan"), 0.2], allow_singularity=True),
+        D("aryule", "const-unbiased-singular", np.ones(8), 3, norm="unbiased"),
+        D("aryule", "const-unbiased-refused", np.full(8, 2.0), 3, norm="unbiased", allow_singularity=False),
+        D("pyule", "const-unbiased-singular", np.ones(10), 4, norm="unbiased"),
+        # non-finite / overflowing samples
+        D("aryule", "nan-sample", vn, 4), D("aryule", "inf-sample", vi, 4), D("aryule", "nan-sample-complex", vcn, 3),
+        D("aryule", "overflow", v * 1e200, 3), D("pyule", "nan-sample", vn, 4, NFFT=64), D("pyule", "overflow", v * 1e200, 2),
+        D("lpc", "nan-sample", vn, 4), D("lpc", "inf-sample", vi, 3), D("lpc", "overflow", v * 1e200, 3),
+        D("ma", "nan-sample", vn, 2, 5), D("ma", "inf-sample", vi, 2, 5), D("ma", "overflow", v * 1e200, 2, 5),
+        D("aryule", "underflow-to-zero", v * 1e-200, 3), D("lpc", "underflow-to-zero", v * 1e-200, 3),
+        # order outside 1..N-1, wrong types, wrong shapes
+        D("aryule", "order=N", v, 24), D("aryule", "order>N", v[:8], 11), D("pyule", "order=N", v[:8], 8), D("lpc", "order=N", v[:8], 8),
+        D("lpc", "order>N", v[:8], 12), D("ma", "Q>=M", v, 5, 5), D("ma", "Q=0", v, 0, 5), D("ma", "M>=N", v[:8], 2, 9),
+        D("aryule", "order=0", v, 0), D("aryule", "order<0", v, -2), D("aryule", "order-float", v, 2.5), D("aryule", "order-str", v, "3"),
+        D("aryule", "order-none", v, None), D("lpc", "order=0", v, 0), D("lpc", "order-float", v, 2.5), D("lpc", "order<0", v, -1),
+        D("pyule", "order=0", v, 0), D("pyule", "order-float", v, 2.5), D("pyule", "NFFT<N", v, 3, NFFT=4), D("pyule", "NFFT=0", v, 3, NFFT=0),
+        D("aryule", "x-str", "abcdef", 2), D("aryule", "x-none", None, 2), D("aryule", "x-scalar", 3.0, 1), D("aryule", "x-empty", [], 1),
+        D("aryule", "x-list-of-str", ["1", "2", "x", "4"], 2), D("aryule", "x-2d", v.reshape(4, 6), 2), D("aryule", "x-bool", v > 0, 3),
+        D("aryule", "x-len1", [2.0], 0), D("aryule", "norm-bogus", v, 3, norm="coeff"), D("aryule", "norm-none", v, 3, norm=None),
+        D("lpc", "x-list", [1.0, 2.0, 0.5, -1.0, 0.25], 2), D("lpc", "x-empty", np.zeros(0), 1), D("lpc", "x-complex", vc, 3),
+        D("lpc", "x-2d", v.reshape(4, 6), 2), D("pyule", "x-none", None, 2), D("pyule", "x-str", "abcdef", 2),
+        D("CORRELATION", "maxlags>=N", v[:6], maxlags=6), D("CORRELATION", "unequal-lengths", v, v[:5], maxlags=3),
+        D("CORRELATION", "norm-bogus", v, maxlags=3, norm="xx"),
+        # valid calls on an unrelated record (a history that is inside the property)
+        D("aryule", "valid-other", v, 5), D("aryule", "valid-other-complex", vc, 4), D("pyule", "valid-other", v, 3, NFFT=32),
+        D("lpc", "valid-other", v, 6), D("ma", "valid-other", v, 2, 6), D("aryule", "valid-other-unbiased", v, 2, norm="unbiased"),
+        # ... and valid calls on the SAME record object with another order / normalisation (anything remembered per object)
+        D("aryule", "same-record-order-1", "@x", 1), D("pyule", "same-record-order-1", "@x", 1, NFFT=16),
+        D("lpc", "same-record-order-1", "@x", 1), D("ma", "same-record-1-2", "@x", 1, 2),
+        D("aryule", "same-record-unbiased", "@x", 1, norm="unbiased"), D("CORRELATION", "same-record-coeff", "@x", maxlags=1, norm="coeff"),
+    ]
+
+
+def gen_seq(nrng, tier):
+    cat = pre_catalogue(nrng)
+    ordinary = ["noise", "tone", "trend", "int", "const"]
+    rounds = 1          # (the thorough tier repeats the whole generator with fresh random streams)
+    i = 0
+    for r in range(rounds):
+        # every catalogue entry on its own, then pairs / triples
+        plans = [[d] for d in cat]
+        for _ in range(len(cat) // 3):
+            m = 2 + int(nrng.integers(0, 2))
+            plans.append([cat[int(j)] for j in nrng.choice(len(cat), size=m, replace=False)])
+        for pre in plans:
+            i += 1
+            cplx = bool((i + r) % 2)
+            N = int(nrng.integers(3, 201)) if i % 4 else int(nrng.integers(3, 12))
+            omax = min(N - 1, 30)
+            order = (int(nrng.integers(1, omax + 1)), omax, int(nrng.integers(1, min(omax, 6) + 1)))[i % 3]
+            variant = None
+            if i % 4 == 3:
+                x, dk = gen_data(nrng, N, cplx, kind=ordinary[(i // 4) % len(ordinary)])
+                x = np.asarray(x, dtype=complex if cplx else float)
+            else:
+                dk = TINY_CLASSES[(i + i // 4 + r) % len(TINY_CLASSES)]
+                x, variant = extreme_record(nrng, N, cplx, dk, i)
+            q = {"pre": pre, "x": x, "order": order, "exact": False, "dkind": dk, "ref": ("before", "restored")[(i // 2) % 2]}
+            if variant:
+                q["variant"] = variant
+            yield ("seq", q)
